@@ -49,8 +49,8 @@ func fnValidate() *run.Fn {
 	}}
 }
 
-// probes returns the indices on which the opposite direction is called: the whole returned range and its two outer neighbours when
-// the range is short, otherwise both ends, their neighbours and the middle.
+// probes returns the indices on which the opposite direction is called (mirrors DC12.probes): the whole returned range and its two
+// outer neighbours when the range is short, otherwise both ends, their neighbours and 8 evenly spaced interior points.
 func probes(mn, mx int64) []int64 {
 	if mx < mn {
 		return nil
@@ -62,7 +62,11 @@ func probes(mn, mx int64) []int64 {
 		}
 		return r
 	}
-	return []int64{mn - 1, mn, mn + 1, mn + (mx-mn)/2, mx - 1, mx, mx + 1}
+	r := []int64{mn - 1, mn, mn + 1}
+	for q := int64(1); q <= 8; q++ {
+		r = append(r, mn+(mx-mn)*q/9)
+	}
+	return append(r, mx-1, mx, mx+1)
 }
 
 // round trip: first the call on (i, zs, zt, E, O), then the opposite call on (j, zt, zs, E, O) for every probe j.
@@ -106,8 +110,14 @@ func sign(g *Gen, x int64) int64 {
 	return x
 }
 
-// offset: zero, powers of two, 2^k±1, small odd numbers, the library's constant 2^24, negatives, random, large (up to ±2^40).
+// offset: zero, powers of two, 2^k±1, small odd numbers, the library's constant 2^24, negatives, random, large (±2^28..2^40), huge (±2^41..2^62, int64 ends).
 func offset(g *Gen) (int64, string) {
+	if g.Chance(0.04) { // 2^41 .. 2^62, MaxInt64, MinInt64: int64 wrap-around in either direction (mostly a harmless one: still an error)
+		if g.Chance(0.3) {
+			return g.Pick(math.MaxInt64, math.MinInt64, math.MinInt64+1, math.MaxInt64-1), "off=int64-end"
+		}
+		return sign(g, pow2(g.Int63n(22)+41)+g.Pick(0, 0, 1, -1, g.Int63n(1000))), "off=huge"
+	}
 	switch g.Intn(12) {
 	case 0, 1:
 		return 0, "off=0"
@@ -202,8 +212,20 @@ func genStraddleFwd(g *Gen) ([]int64, []string) {
 	if g.Chance(0.3) {
 		z = g.Pick(0, 1, 20, 22, 23, 24)
 	}
-	h := pow2(25 - z)
 	E, out := g.Zoom(), g.Zoom()
+	if g.Chance(0.2) { // sub-metre voxel ending exactly at / next to an end of the key range (it cannot straddle an integer altitude)
+		z = 26 + g.Int63n(10)
+		m := pow2(z - 25)
+		f := g.Pick(0, -1, 1, m-1, m, -m, -m-1, g.VIndex(z)>>uint(g.Intn(10)))
+		O := -ashift(f, 25-z) + g.Pick(0, 0, 1, -1)
+		tag := "fwd:submetre-at-bottom"
+		if g.Chance(0.5) {
+			O += pow2(E)
+			tag = "fwd:submetre-at-top"
+		}
+		return []int64{f, z, out, E, O}, []string{tag, Tag("z=%d", z), Tag("out=%d", out), Tag("E=%d", E)}
+	}
+	h := pow2(25 - z)
 	f := g.VIndex(z)
 	r := g.Pick(0, 1, h-1, h/2, h, g.Int63n(h+1), g.Int63n(h+1))
 	tag := "fwd:straddle-bottom"
@@ -266,15 +288,24 @@ func genBackward(g *Gen) ([]int64, []string) {
 	return []int64{k, kz, out, E, O}, []string{mode, otag, Tag("z=%d", kz), Tag("out=%d", out), Tag("E=%d", E)}
 }
 
-// outside the property's domain (D10): zooms / exponents outside 0..35 — the model says what the code does today, C12 claims nothing
-func outside(g *Gen, a []int64) []int64 {
+// error stream: a zoom outside 0..35 (both exported conversions must answer with an error since /repo 9dab435, whatever the other
+// arguments), or a base exponent outside 0..35 (outside C12's quantifier: only the correspondence is compared; MinInt64+zoom panics)
+func outside(g *Gen, a []int64) ([]int64, string) {
 	b := append([]int64{}, a...)
-	bad := []int64{-1, -2, -25, 36, 37, 40, 61, 62, 63, 64, 65, 100, -100, 1 << 40, math.MaxInt64, math.MinInt64 + 1}
-	if g.Chance(0.05) {
-		bad = []int64{math.MinInt64} // negative shift amount: run-time panic
+	badZoom := []int64{-1, -2, -25, 36, 37, 40, 61, 62, 63, 64, 65, 100, -100, 1 << 40, math.MaxInt64, math.MinInt64, math.MinInt64 + 1}
+	switch g.Intn(8) {
+	case 0, 6: // base exponent
+		b[3] = g.Pick(-1, -2, -10, -40, -64, -65, 36, 37, 40, 50, 63, 64, 65, 100, -100, 1<<40, math.MaxInt64, math.MinInt64, math.MinInt64+b[2], math.MinInt64+b[1])
+		return b, "bad-exponent"
+	case 1: // both zooms
+		b[1] = badZoom[g.Intn(len(badZoom))]
+		b[2] = badZoom[g.Intn(len(badZoom))]
+	case 2, 3, 4:
+		b[1] = badZoom[g.Intn(len(badZoom))]
+	default:
+		b[2] = badZoom[g.Intn(len(badZoom))]
 	}
-	b[1+g.Intn(3)] = bad[g.Intn(len(bad))]
-	return b
+	return b, "bad-zoom"
 }
 
 // a related call for the stateful-mutant stream: the same call again, or one argument changed
@@ -332,23 +363,104 @@ var fixedForward = [][]int64{
 	{0, 25, 25, 25, consts.ZBaseOffsetForNegativeFIndex}, {-(1 << 25), 25, 25, 25, consts.ZBaseOffsetForNegativeFIndex},
 	{(1 << 25) - 1, 25, 25, 25, consts.ZBaseOffsetForNegativeFIndex}, {1, 26, 26, 25, 0}, {-1, 35, 35, 25, 1},
 	{0, 25, 35, 0, 1 << 29}, // int64_overflow: (lower+offset) << toKey wraps
+	// zooms outside 0..35: error (9dab435)
+	{0, 36, 3, 25, 0}, {0, 3, 36, 25, 0}, {0, -1, 3, 25, 0}, {0, 3, -1, 25, 0}, {5, 63, 3, 25, 0}, {0, 64, 3, 25, 0},
+	{0, math.MinInt64, 3, 25, 0}, {0, 3, math.MinInt64, 25, 0}, {0, math.MaxInt64, 3, 25, 0}, {0, 3, math.MaxInt64, 25, 0},
+	{0, 25, 10, math.MinInt64 + 10, 0}, // int64_overflow: zBaseExponent makes the shift count MinInt64: panic
+	{(1 << 35) - 1, 35, 35, 0, 7 << 25}, {(1 << 35) - 1, 35, 35, 0, (7 << 25) - 1}, // first forward wrap (harmless: an error either way)
+	{0, 25, 25, 25, math.MaxInt64}, {0, 25, 25, 25, math.MinInt64}, {3, 25, 30, 36, 5}, {3, 25, 30, -2, 5}, {3, 25, 30, 64, 5}, {3, 25, 30, 65, 5},
 }
 var fixedBackward = [][]int64{
 	{0, 25, 25, 25, consts.ZBaseOffsetForNegativeFIndex}, {3, 27, 26, 25, 0}, {0, 0, 35, 0, 0}, {0, 0, 35, 35, -1},
 	{(1 << 25) - 1, 25, 25, 25, 0}, {1 << 25, 26, 25, 25, 0}, {5, 3, 30, 3, 7},
 	{(1 << 20) - 1, 20, 22, 25, -5}, {(1 << 20) - 1, 20, 25, 25, -5}, {(1 << 20) - 1, 20, 27, 25, -5}, {0, 0, 25, 25, -1}, // straddle the top: error
 	{0, 0, 25, 25, (1 << 25) + 1}, {0, 20, 25, 25, (1 << 25) + 5}, // straddle the bottom: error
+	// zooms outside 0..35: error (9dab435)
+	{0, 36, 3, 25, 0}, {0, 3, 36, 25, 0}, {0, -1, 3, 25, 0}, {0, 3, -1, 25, 0}, {0, 63, 3, 25, 0}, {0, 3, 64, 25, 0},
+	{0, math.MinInt64, 3, 25, 0}, {0, 3, math.MinInt64, 25, 0}, {0, math.MaxInt64, 3, 25, 0}, {0, 3, math.MaxInt64, 25, 0},
+	{0, 3, 25, math.MinInt64 + 3, 0}, // int64_overflow: zBaseExponent makes the shift count MinInt64: panic
+	{0, 0, 35, 0, 1 << 54}, {0, 0, 35, 0, 1 << 62}, // int64_overflow: (imin - offset) << 10 wraps to 0: (0,1023) instead of an error
+	{0, 0, 35, 0, math.MaxInt64}, {0, 0, 35, 0, math.MinInt64}, {5, 3, 30, 36, 5}, {5, 3, 30, -3, 5}, {3, 25, 30, 64, 5},
 }
 
+// offsets chosen so that the shifted sum wraps around int64 onto a small valid index: the class int64_overflow (wrong Ok answers)
+func genWrapFwd(g *Gen) ([]int64, []string) {
+	z := g.Int63n(26) // p = 0: toKey = out - E
+	t := 2 + g.Int63n(34)
+	E := g.Int63n(36 - t)
+	out := E + t
+	f := g.Pick(0, 0, 1, -1, g.VIndex(z)>>uint(g.Intn(20)))
+	lower := ashift(f, 25-z)
+	var lim int64 = 8
+	if E < 3 {
+		lim = pow2(E)
+	}
+	r := g.Int63n(lim)
+	q := g.Pick(1, -1, 2, -2, 3)
+	if 64-t >= 62 {
+		q = g.Pick(1, -1)
+	}
+	O := q*pow2(64-t) + r - lower // int64 arithmetic may wrap here too: fine, any offset is a legal argument
+	return []int64{f, z, out, E, O}, []string{"fwd:wrap-to-valid", Tag("z=%d", z), Tag("out=%d", out), Tag("E=%d", E)}
+}
+func genWrapBwd(g *Gen) ([]int64, []string) {
+	od := 1 + g.Int63n(10)
+	out := 25 + od
+	kz, E := g.Zoom(), g.Zoom()
+	k := g.HIndex(kz)
+	imin := ashift(k, E-kz)
+	r := g.Int63n(16) - 8
+	q := g.Pick(1, -1, 2, -2, 3)
+	O := imin - r - q*pow2(64-od)
+	return []int64{k, kz, out, E, O}, []string{"bwd:wrap-to-valid", Tag("z=%d", kz), Tag("out=%d", out), Tag("E=%d", E)}
+}
+
+// okFirst draws from gen until the implementation answers the first call without error (at most 6 draws), so that round trips
+// really issue back-calls. It only steers the generator; every emitted case is judged as usual.
+func okFirst(g *Gen, gen func(*Gen) ([]int64, []string), first func([]int64) (int64, int64, error)) (a []int64, tags []string) {
+	for try := 0; try < 6; try++ {
+		a, tags = gen(g)
+		ok := false
+		func() {
+			defer func() { _ = recover() }()
+			_, _, err := first(a)
+			ok = err == nil
+		}()
+		if ok {
+			return
+		}
+	}
+	return
+}
+
+// thorough tier: every combination of zooms and base exponent in 23..27 (cells of 0.25 .. 4 m on either side) with offsets -9..9 and
+// source indices in windows around altitude 0, around the top of the target range and at both ends of the source index range:
+// covers of 1..17 cells, errors at the range ends, sub-metre and metre regimes on both sides.
+func win(out *[]int64, lo, hi int64) {
+	for v := lo; v <= hi; v++ {
+		*out = append(*out, v)
+	}
+}
 func exhaustive(r *run.Runner) {
-	for z := int64(0); z <= 4; z++ {
-		for out := int64(0); out <= 4; out++ {
-			for E := int64(0); E <= 4; E++ {
+	for z := int64(23); z <= 27; z++ {
+		for out := int64(23); out <= 27; out++ {
+			for E := int64(23); E <= 27; E++ {
 				for O := int64(-9); O <= 9; O++ {
-					for f := -pow2(z) - 1; f <= pow2(z); f++ {
+					var fs []int64
+					win(&fs, -24, 24)                                     // altitude 0 +- a few metres: bottom of the key range
+					top := ashift(pow2(E)-O, z-25)                        // voxel holding the top of the key range
+					win(&fs, top-12, top+12)
+					win(&fs, -pow2(z)-1, -pow2(z)+2)
+					win(&fs, pow2(z)-3, pow2(z))
+					for _, f := range fs {
 						emit(r, "ConvertZToMinMaxAltitudekey", []int64{f, z, out, E, O}, []string{"exhaustive"})
 					}
-					for k := int64(-1); k <= pow2(z); k++ {
+					var ks []int64
+					win(&ks, -1, 40)                                       // keys next to altitude -O
+					ktop := ashift(pow2(25)+O, z-E)                        // key holding +2^25 m, the top of the spatial-ID range
+					win(&ks, ktop-12, ktop+12)
+					win(&ks, pow2(z)-3, pow2(z))
+					for _, k := range ks {
 						emit(r, "ConvertAltitudekeyToMinMaxZ", []int64{k, z, out, E, O}, []string{"exhaustive"})
 					}
 				}
@@ -382,6 +494,12 @@ func init() {
 			var tags []string
 			fn := ""
 			switch c := g.Intn(100); {
+			case c < 2:
+				a, tags = genWrapFwd(g)
+				fn = "ConvertZToMinMaxAltitudekey"
+			case c < 4:
+				a, tags = genWrapBwd(g)
+				fn = "ConvertAltitudekeyToMinMaxZ"
 			case c < 22:
 				a, tags = genForward(g)
 				fn = "ConvertZToMinMaxAltitudekey"
@@ -397,20 +515,35 @@ func init() {
 			case c < 60:
 				a, tags = genStraddleBwd(g)
 				fn = "ConvertAltitudekeyToMinMaxZ"
+			case c < 68:
+				a, tags = okFirst(g, genForward, z2k)
+				fn = "RoundTripZ"
+				tags = append(tags, "roundtrip")
 			case c < 70:
-				a, tags = genForward(g)
+				a, tags = genStraddleFwd(g)
 				fn = "RoundTripZ"
 				tags = append(tags, "roundtrip")
 			case c < 76:
 				a, tags = genCoarseOdd(g)
 				fn = "RoundTripZ"
 				tags = append(tags, "roundtrip")
+			case c < 85:
+				a, tags = okFirst(g, genBackward, k2z)
+				fn = "RoundTripK"
+				tags = append(tags, "roundtrip")
 			case c < 88:
-				a, tags = genBackward(g)
+				a, tags = genStraddleBwd(g)
 				fn = "RoundTripK"
 				tags = append(tags, "roundtrip")
 			case c < 94:
-				a, tags = genForward(g)
+				switch g.Intn(3) {
+				case 0:
+					a, tags = genCoarseOdd(g)
+				case 1:
+					a, tags = genStraddleFwd(g)
+				default:
+					a, tags = genForward(g)
+				}
 				fn = "convertZToMinAltitudekey"
 			default:
 				// validateIndexExists(index, zoom, minValueIsNegative)
@@ -428,9 +561,10 @@ func init() {
 				}
 				continue
 			}
-			if g.Chance(0.02) {
-				a = outside(g, a)
-				tags = []string{"outside-domain", fn}
+			if g.Chance(0.03) {
+				var tg string
+				a, tg = outside(g, a)
+				tags = []string{tg, fn}
 			}
 			emit(r, fn, a, tags)
 			// ~10 %: a related call issued back to back (same call twice, or one argument changed) — exposes state kept between calls
